@@ -171,3 +171,58 @@ package federation
 //@ func Conn.SpecimenList property C20
 //@   only calls: Conn.generated_SpecimenList
 //@   calls Conn.generated_SpecimenList#1: requires $0 == ctx && $1 == options
+
+// chooseBackend: a 27-character UUID is routed by its 5-character prefix, a
+// 5-character id by itself; the local cluster id gives the local backend, a
+// configured remote its proxy; anything else (PDH, bogus id, unknown cluster)
+// falls back to the local backend.
+//@ func Conn.chooseBackend property C18,C19,C20 safety -bounds
+//@   ensures len(id) != 27 && len(id) != 5 ==> result == conn.local
+//@   ensures len(id) == 5 && id == conn.cluster.ClusterID ==> result == conn.local
+//@   ensures len(id) == 27 && id[0:5] == conn.cluster.ClusterID ==> result == conn.local
+//@   ensures len(id) == 5 && id != conn.cluster.ClusterID && has(conn.remotes, id) ==> result == conn.remotes[id]
+//@   ensures len(id) == 27 && id[0:5] != conn.cluster.ClusterID && has(conn.remotes, id[0:5]) ==> result == conn.remotes[id[0:5]]
+//@   ensures result == conn.local || (exists r string :: has(conn.remotes, r) && result == conn.remotes[r])
+
+// CollectionGet (outer function): a UUID request goes to the backend chosen
+// for that UUID and a manifest that came from another cluster has its
+// signatures rewritten for that cluster; a PDH request is answered only
+// through tryLocalThenRemotes (whose callback verifies the hash), and an error
+// from it is returned with an empty collection.
+//@ func Conn.CollectionGet property C18 safety -bounds
+//@   ghost terr error = nil
+//@   ghost tried bool = false
+//@   calls Conn.chooseBackend#1: requires len(options.UUID) == 27 && $0 == options.UUID
+//@   calls rewriteManifest#1: requires len(options.UUID) == 27 && options.UUID[0:5] != conn.cluster.ClusterID && $0 == c.ManifestText && $1 == options.UUID[0:5]
+//@   calls Conn.tryLocalThenRemotes#1: requires len(options.UUID) != 27 && $1 == options.ForwardedFor
+//@   calls Conn.tryLocalThenRemotes#1: set terr = $r
+//@   calls Conn.tryLocalThenRemotes#1: set tried = true
+//@   ghost rw bool = false
+//@   ghost gerr error = nil
+//@   ghost got bool = false
+//@   calls rewriteManifest#1: set rw = true
+//@   calls backend.CollectionGet#1: set gerr = $r1
+//@   calls backend.CollectionGet#1: set got = true
+//@   ensures got && gerr == nil && options.UUID[0:5] != conn.cluster.ClusterID ==> rw
+//@   ensures tried && terr != nil ==> result1 == terr
+//@   ensures tried && terr == nil ==> result1 == nil
+
+// rewriteManifest: exactly the block locator tokens (a space, 32 hex digits,
+// "+", then everything up to the next space) of the given manifest are passed
+// through the per-token rewriting function; the rest of the text is untouched
+// (regexp.ReplaceAllStringFunc).
+//@ func rewriteManifest property C18
+//@   calls regexp.MustCompile#1: requires $0 == " [0-9a-f]{32}\\+[^ ]*"
+//@   calls Regexp.ReplaceAllStringFunc#1: requires $0 == mt
+
+// New: the connection to remote cluster id is built with the token provider
+// that salts for that same id (never with the caller's tokens as they are, and
+// never with a provider made for another cluster), and is stored under id;
+// the local cluster and non-proxy remotes get no remote connection.
+//@ func New property C19 safety -nil
+//@   ghost pid string = ""
+//@   calls saltedTokenProvider#1: requires $1 == id && remote.Proxy && id != cluster.ClusterID
+//@   calls saltedTokenProvider#1: set pid = $1
+//@   calls rpc.NewConn#1: requires $0 == id && pid == id && $3 == tp
+//@   ghost tp rpc.TokenProvider = nil
+//@   calls saltedTokenProvider#1: set tp = $r
